@@ -3,6 +3,8 @@ import SctpVerif.Driver.GenX
 import SctpVerif.Driver.E2E
 import SctpVerif.Driver.Timer
 import SctpVerif.Driver.Assoc
+import SctpVerif.Driver.PendQ
+import SctpVerif.Driver.RingQ
 /-!
 Driver: replays implementation logs (`<comp> <op…> -> <impl result>`) through the L0 models and
 evaluates the executable property predicates on the implementation's results.
@@ -24,6 +26,8 @@ structure All where
   assoc : Assoc.St := {}
   rto : Tm.RtoSt := {}
   timer : Tm.St := {}
+  pend : Pend.St := {}
+  ringq : RingQ.St := {}
   desync : List String := []
   cnt : Counters := {}
 
@@ -43,6 +47,8 @@ def stepComp (a : All) (comp : String) (op impl : List String) : All × Option S
   | "as" => let (s, v) := Assoc.step a.assoc op impl; ({ a with assoc := s }, none, v)
   | "rto" => let (s, r, e) := Tm.rtoStep a.rto op impl; ({ a with rto := s }, some r, e.toList)
   | "timer" => let (s, r, e) := Tm.step a.timer op impl; ({ a with timer := s }, some r, e.toList)
+  | "pend" => let (s, r, e) := Pend.step a.pend op impl; ({ a with pend := s }, some r, e.toList)
+  | "ringq" => let (s, r, e) := RingQ.step a.ringq op impl; ({ a with ringq := s }, some r, e.toList)
   | _ => (a, some "unknown-component", [])
 
 partial def loop (h : IO.FS.Stream) (a : All) (lineNo : Nat) : IO All := do
